@@ -59,7 +59,9 @@ def configs(draw, tier):
                      st.tuples(st.just("call"), st.integers(0, nkeys - 1)),
                      st.tuples(st.just("call"), st.integers(0, nkeys - 1)),
                      st.tuples(st.just("clear"), st.just(0)),
-                     st.tuples(st.just("discard"), st.integers(0, nkeys - 1)))
+                     st.tuples(st.just("discard"), st.integers(0, nkeys - 1)),
+                     # a call object that is created but never started (a task cancelled before its first step)
+                     st.tuples(st.just("abandon"), st.integers(0, nkeys - 1)))
     ntasks = draw(st.integers(2, 4))
     tasks = [[list(s) for s in draw(st.lists(step, min_size=1, max_size=3))] for _ in range(ntasks)]
     cancel = draw(st.one_of(st.none(), st.tuples(st.integers(0, ntasks - 1), st.integers(1, 4))))
@@ -122,6 +124,12 @@ def run_config(case, choices=None, default="rr"):
                     continue
                 if id(value) not in produced or value.key != key:
                     problems.append(("value-not-produced-for-this-key", f"task {i} key {key}: {value!r}"))
+            elif name == "abandon":
+                args, kwargs = _pattern(case, key)
+                never_started = cached(*args, **kwargs)
+                if hasattr(never_started, "close"):
+                    never_started.close()
+                del never_started
             elif name == "clear":
                 if in_flight[0]:
                     flags["disturbed"] = True
